@@ -21,7 +21,7 @@ MIN_DECIDED_RATIO = 0.9
 RULE = (
     "lists of 1-5 generated csvpaths (outer comment before / after / both with id|Id|ID|name|Name|NAME in any combination and other "
     "fields, inner ~comments~, newlines and tabs, '~' '[' ']' '$' '#' inside strings, regex terms, quoted headers, non-ASCII) x histories of "
-    "<= 5 operations {add list k to group g, identical re-add, replace, remove, new instance} on 2 group names; the storage separator text "
+    "<= 5 operations {add list k to group g, identical re-add, replace, replace by a list of exactly the same length that differs in one digit, remove, new instance} on 2 group names; the storage separator text "
     "'---- CSVPATH ----' is excluded from literals (docs/paths.md). Non-trivial: at least one group with >= 2 members; distinct = distinct "
     "(history, member shapes)."
 )
@@ -244,7 +244,26 @@ def run_case(case, agg):
 
 def make_case(seed, shard, i):
     r = random.Random(f"{seed}:C12:{shard}:{i}")
-    return {"lists": gen_lists(r), "history": gen_history(r)}
+    lists, history = gen_lists(r), gen_history(r)
+    # a fourth list: list 0 with one digit of one member's csvpath changed - different content of exactly the same length
+    # (an edited threshold, another line number); a third of the histories that store list 0 replace it with that list next
+    r2 = random.Random(f"{seed}:C12same:{shard}:{i}")
+    twin = [dict(m) for m in lists[0]]
+    for m in r2.sample(twin, len(twin)):
+        t = m["text"]
+        lo, hi = t.find("$["), t.rfind("]")
+        pos = [k for k in range(lo, hi) if t[k].isdigit()] if 0 <= lo < hi else []
+        if pos:
+            k = r2.choice(pos)
+            m["text"] = t[:k] + r2.choice([d for d in "0123456789" if d != t[k]]) + t[k + 1 :]
+            break
+    lists.append(twin)
+    if twin != lists[0] and r2.random() < 0.35:
+        at = [k for k, op in enumerate(history) if op[0] == "add" and op[2] == 0]
+        if at:
+            k = r2.choice(at)
+            history.insert(k + 1, ["add", history[k][1], 3])
+    return {"lists": lists, "history": history}
 
 
 def run_one(case, agg):
